@@ -68,10 +68,10 @@ def gen_cases(rng, tier):
         model["api_density_lookup"] = "on_demand"     # functions made on lookup: a new callable object per access
       elif i % 3 == 2 and model.get("api_containers") != "amend_after_write":
         model["api_refit"] = 1                        # the state behind the functions changes between two writes
-      if i % 4:
+      if i % 5:
         # functions that return 0-d numpy arrays: fresh ones, integer-typed ones where the value is whole, memoised ones
-        # (the same array object again for the same separation - it must come back unchanged)
-        model["api_results"] = [None, "numpy0d", "numpy0d_int", "numpy0d_cached"][i % 4]
+        # (the same array object again for the same separation - it must come back unchanged); callables that are falsy
+        model["api_results"] = [None, "numpy0d", "numpy0d_int", "numpy0d_cached", "falsy_callable"][i % 5]
     cases.append({"route": route, "model": model, "style": rng.randrange(1 << 30)})
     # exhaustive declaration orders for <= 3 elements (potable route)
     if groute == "potable" and len(model["embed"]) in (2, 3) and i % 3 == 0:
